@@ -32,6 +32,10 @@ pub fn scopes(rep: &Report, checks: Checks) {
     let pool2 = ["k", "K", "\u{e9}", "e\u{301}"];
     let nt2 = named_trees(2, 2, &pool2);
     run_structures(rep, "name-relation family 2: member names drawn from {k, K, e-acute (composed), e + combining acute} x all strategies x all selections", &nt2, &all_strats, &cheap, checks, true);
+    // D2c: member names that spell another node's path
+    let pool3 = ["a", "a.a", "a[0]", "b"];
+    let nt3 = named_trees(3, 3, &pool3);
+    run_structures(rep, "name-relation family 3: member names drawn from {a, a.a, a[0], b} (names that spell another node's path) x {NoSD, Top, All} x all selections", &nt3, &fixed_strategies, &cheap, checks, true);
     // D3: pairs of special strings in one container
     let pairs = pair_alphabet_trees();
     run_structures(rep, "string-pair pass: every ordered pair of the string alphabet side by side in 5 container shapes x {Top, All, 2 Custom}", &pairs, &pair_strategies, &cheap, checks, false);
